@@ -147,6 +147,8 @@ def _p_norm(p: float, critical_pairs: list = []):
     Compute `p` norm of interpolated piecewise linear function defined from list of
     critical pairs.
     """
+    # (a Python float: p + 1 of a NumPy int8 scalar wraps around, float16 loses digits)
+    p = float(p)
     result = 0.0
     for l in critical_pairs:
         for [[x0, y0], [x1, y1]] in zip(l, l[1:]):
